@@ -820,7 +820,9 @@ DOC_POOL = [
     '{"rules": [], "n": 1e3}', '{"rules": [], "n": 1E+2, "m": [2e0]}', '{"rules": [],\t"n": 1}', '{"rules": [], "s": "a\\/b"}',
 ]
 DOC_NAMES = ["p.json", "p.yaml", "p.yml", "p.YAML", "p.Yml", "p.JSON", "p.txt", "p", "p.json.yaml", "p.yaml.json",
-             "pyaml", "p.yamlx", ".yaml", "p.yaml.bak"]
+             "pyaml", "p.yamlx", ".yaml", "p.yaml.bak",
+             # characters that mean something in URLs mean nothing in a file name
+             "p#1.yaml", "rev#2.yml", "p.yaml#frag", "p.yaml?x=1", "what?.yaml", "a%2Eyaml", "p.json#x.yaml", "p;v=1.yml", "p&q.yaml"]
 
 
 def _decode_text(b):
